@@ -145,6 +145,8 @@ def apply_model(m: Model, op):
         if name == "insert2":
             m.insert(op[1], pairs_of_insert_arg(op[2]))
             return ("ok", None)
+        if name == "insert_iter":     # replay only: as the real container did
+            return ("ok", None)
         if name in ("insert_before", "insert_after"):
             idx = m.key_index(op[1], op[3])
             if name == "insert_after":
@@ -189,6 +191,16 @@ def apply_model(m: Model, op):
 
 
 def apply_real(c, op):
+    if op[0] == "insert_iter":
+        try:
+            c.insert(op[1], iter(list(op[2])))
+            return ("ok", None)
+        except (KeyError, IndexError, TypeError) as e:
+            return ("exc", type(e).__name__)
+    return _apply_real(c, op)
+
+
+def _apply_real(c, op):
     name = op[0]
     try:
         with warnings.catch_warnings():
